@@ -48,9 +48,20 @@ type State struct {
 	heap  map[string]string // family key -> current symbol
 	wm    string            // allocation watermark
 	dead  bool
-	iters map[ssa.Value]string // map-range iterators: visited predicate symbol
-	lock  map[string]string    // unused
+	iters map[ssa.Value]string  // map-range iterators: visited predicate symbol
+	lock  map[string]string     // unused
 	armed map[*ssa.Defer]string // Bool term: the defer statement has executed on this path
+	last  map[string]*lastCall  // ghost record of the most recent call of a watched function on this path
+}
+
+// lastCall is what lastresult(F) / lastarg(F, i) / atlast(F, e) read: the arguments and results of
+// the most recent call of F on the path, the state just before it, and the condition under
+// which the path went through that call.
+type lastCall struct {
+	snap  *State
+	args  []SVal
+	res   []SVal
+	valid string
 }
 
 func (s *State) clone() *State {
@@ -75,6 +86,12 @@ func (s *State) clone() *State {
 	for k, v := range s.armed {
 		n.armed[k] = v
 	}
+	if len(s.last) > 0 {
+		n.last = make(map[string]*lastCall, len(s.last))
+		for k, v := range s.last {
+			n.last[k] = v
+		}
+	}
 	return n
 }
 
@@ -86,9 +103,9 @@ type Loc struct {
 	args []string
 	ty   types.Type // type of the value stored there
 	// for struct-typed locations: the ref of the struct object
-	structRef string
-	nilCheck  string // ref term that must be non-nil for the access (or "")
-	localArray bool  // element of an array object (varargs temporaries): not subject to element invariants on load
+	structRef  string
+	nilCheck   string // ref term that must be non-nil for the access (or "")
+	localArray bool   // element of an array object (varargs temporaries): not subject to element invariants on load
 }
 
 type FV struct {
@@ -108,9 +125,9 @@ type FV struct {
 	counter  int
 	declared map[string]bool
 
-	vals   map[ssa.Value]string
-	tuples map[ssa.Value][]string
-	ptrs   map[ssa.Value]*Loc
+	vals     map[ssa.Value]string
+	tuples   map[ssa.Value][]string
+	ptrs     map[ssa.Value]*Loc
 	closures map[ssa.Value]*ssa.MakeClosure
 
 	entry    *State
@@ -119,50 +136,51 @@ type FV struct {
 	loops    map[*ssa.BasicBlock]*LoopInfo
 	loopOrd  []*ssa.BasicBlock
 
-	params    map[string]SVal // contract-visible names at entry
-	resNames  []string
-	kindCount map[string]int
-	unsupported []string
-	unmodelled  map[string]bool
+	params          map[string]SVal // contract-visible names at entry
+	resNames        []string
+	kindCount       map[string]int
+	unsupported     []string
+	unmodelled      map[string]bool
 	assumptionsUsed map[string]bool
-	calleesUsed map[string]bool
-	wm0 string
-	deferred []*ssa.Defer
-	curBlock *ssa.BasicBlock
-	curInstr ssa.Instruction
-	safetyOff map[string]bool
-	specErrs []string
-	frames   []*frame
-	retCount int
-	foldCount int
-	catch    *retCatcher
-	noAssume bool
-	assumeInstead string
-	scriptRegion []int
-	scriptOrigin []string // name of the contract clause an assumption came from ("" = code semantics)
-	origin       string
-	region       int
-	regionCount  int
-	rootOf       map[string]string // derived ref term -> the object it lies in
-	suppressObl  bool              // apply a contract without emitting its precondition obligations (already proved at this site)
-	alias        map[string]string // contract parameter name -> implementation parameter name (interface refinement)
-	nameSuffix   string
-	lockKeys     []string
-	refKinds     map[string]string
-	guardOf      map[string]string // map value term -> mutex ref term guarding it
-	noSpecAssume bool
+	calleesUsed     map[string]bool
+	wm0             string
+	deferred        []*ssa.Defer
+	curBlock        *ssa.BasicBlock
+	curInstr        ssa.Instruction
+	safetyOff       map[string]bool
+	specErrs        []string
+	frames          []*frame
+	retCount        int
+	foldCount       int
+	catch           *retCatcher
+	noAssume        bool
+	assumeInstead   string
+	scriptRegion    []int
+	noRecord        string   // set by lastarg()/atlast() when no call of the named function reaches the clause
+	scriptOrigin    []string // name of the contract clause an assumption came from ("" = code semantics)
+	origin          string
+	region          int
+	regionCount     int
+	rootOf          map[string]string // derived ref term -> the object it lies in
+	suppressObl     bool              // apply a contract without emitting its precondition obligations (already proved at this site)
+	alias           map[string]string // contract parameter name -> implementation parameter name (interface refinement)
+	nameSuffix      string
+	lockKeys        []string
+	refKinds        map[string]string
+	guardOf         map[string]string // map value term -> mutex ref term guarding it
+	noSpecAssume    bool
 }
 
 type LoopInfo struct {
-	head    *ssa.BasicBlock
-	blocks  map[*ssa.BasicBlock]bool
-	ord     int
-	spec    *LoopSpec
-	rangeIdx *ssa.Alloc // rangeindex cell if this is a slice range loop
+	head      *ssa.BasicBlock
+	blocks    map[*ssa.BasicBlock]bool
+	ord       int
+	spec      *LoopSpec
+	rangeIdx  *ssa.Alloc // rangeindex cell if this is a slice range loop
 	rangeLenV ssa.Value
-	mapIter  ssa.Value // *ssa.Range if map range loop
-	havocSt  *State    // state right after havoc (for inv-keep evaluation of modifies)
-	preSt    *State
+	mapIter   ssa.Value // *ssa.Range if map range loop
+	havocSt   *State    // state right after havoc (for inv-keep evaluation of modifies)
+	preSt     *State
 }
 
 func (fv *FV) fresh(prefix string) string {
@@ -524,6 +542,7 @@ func (fv *FV) oblige(st *State, kind, label string, goal string, pos token.Pos, 
 func (fv *FV) obligeSpec(st *State, kind, label string, ctx *SpecCtx, cl *Clause, pos token.Pos, props []string, what string) *Obligation {
 	g := *ctx
 	g.asGoal = true
+	fv.noRecord = ""
 	goal, err := fv.trySpec(&g, cl)
 	if err != nil {
 		fv.specErrs = append(fv.specErrs, fmt.Sprintf("%s: %s: %v", fv.relName, what, err))
@@ -534,6 +553,12 @@ func (fv *FV) obligeSpec(st *State, kind, label string, ctx *SpecCtx, cl *Clause
 	as, err := fv.trySpec(&a, cl)
 	if err == nil {
 		fv.assumeInstead = as
+	}
+	if fv.noRecord != "" {
+		// the clause refers to a call (lastarg/atlast) that does not happen on any path to this point:
+		// the obligation fails as such (it is not a contract error)
+		goal = "false"
+		fv.assumeInstead = "true"
 	}
 	fv.origin = cl.Name
 	o := fv.oblige(st, kind, label, goal, pos, props)
@@ -626,7 +651,9 @@ func (fv *FV) merge(name string, edges []*State) *State {
 	for c := range cellSet {
 		cells = append(cells, c)
 	}
-	sort.Slice(cells, func(i, j int) bool { return cells[i].Name() < cells[j].Name() || (cells[i].Name() == cells[j].Name() && cells[i].Pos() < cells[j].Pos()) })
+	sort.Slice(cells, func(i, j int) bool {
+		return cells[i].Name() < cells[j].Name() || (cells[i].Name() == cells[j].Name() && cells[i].Pos() < cells[j].Pos())
+	})
 	for _, c := range cells {
 		same := true
 		first := ""
@@ -800,6 +827,39 @@ func (fv *FV) merge(name string, edges []*State) *State {
 			fv.assumeGlobal(implies(e.reach, eq(nc, t)))
 		}
 		n.lock[k] = nc
+	}
+	// ghost call records: kept when every path that has one has the same one; valid on those paths only
+	lastKeys := map[string]bool{}
+	for _, e := range live {
+		for k := range e.last {
+			lastKeys[k] = true
+		}
+	}
+	for _, k := range sortedKeys(lastKeys) {
+		var rec *lastCall
+		same := true
+		var conds []string
+		for _, e := range live {
+			r, ok := e.last[k]
+			if !ok {
+				continue
+			}
+			if rec == nil {
+				rec = r
+			}
+			if r.snap != rec.snap {
+				same = false
+				break
+			}
+			conds = append(conds, and(e.reach, r.valid))
+		}
+		if rec == nil || !same {
+			continue
+		}
+		if n.last == nil {
+			n.last = map[string]*lastCall{}
+		}
+		n.last[k] = &lastCall{snap: rec.snap, args: rec.args, res: rec.res, valid: or(conds...)}
 	}
 	return n
 }
